@@ -1,7 +1,9 @@
 #!/usr/bin/env python3
-"""Runs the quick check of the relevant property against every seeded change, on a scratch worktree
-(never on /repo itself), and writes seeded/MATRIX.json.  Usage: tools/seeded_matrix.py [id ...]"""
-import json, os, subprocess, sys, time, tempfile, shutil
+"""Runs the quick check of the relevant property against every seeded change, on scratch worktrees
+(never on /repo itself), and writes seeded/MATRIX.json.  Usage: tools/seeded_matrix.py [--jobs N] [id ...]
+The two unchanged-tree entries run first, one after the other; the seeded changes then run N at a time
+(default 2; their wall times are therefore those of a shared machine)."""
+import json, os, subprocess, sys, time, tempfile, shutil, threading
 VERIF = os.path.dirname(os.path.dirname(os.path.abspath(__file__)))
 WT = "/var/tmp/phq-seeded-wt"
 
@@ -10,50 +12,78 @@ def sh(cmd, **kw):
     return subprocess.run(cmd, shell=True, stdout=subprocess.PIPE, stderr=subprocess.STDOUT, text=True, **kw)
 
 
-def main(ids):
-    sh("git -C /repo worktree remove --force %s" % WT)
-    r = sh("git -C /repo worktree add --detach %s HEAD" % WT)
-    if r.returncode:
-        print(r.stdout); return 2
+def run_entry(name, wt, scratch):
+    env = dict(os.environ, VERIF_REPO=wt, VERIF_EVIDENCE_DIR=os.path.join(scratch, "ev"), VERIF_REPLAY_DIR=os.path.join(scratch, "rp"))
+    props = None
+    if name.startswith("(unchanged"):
+        prop, patch = name.split("/")[1], None
+    else:
+        meta = json.load(open(os.path.join(VERIF, "seeded", name, "meta.json")))
+        prop, patch = meta["property"], os.path.join(VERIF, "seeded", name, "patch.diff")
+        if not prop.startswith("C"):
+            props = ["C19", "C20"]      # benign changes: both checks must stay quiet
+    sh("git -C %s checkout -- ." % wt)
+    if patch:
+        a = sh("git -C %s apply %s" % (wt, patch))
+        if a.returncode:
+            return {"error": "patch does not apply: " + a.stdout[-300:]}
+    t = time.time()
+    res = {}
+    for pr in (props or [prop]):
+        r = subprocess.run([os.path.join(VERIF, "check"), pr, "--tier", "quick"], cwd=VERIF, env=env, stdout=subprocess.PIPE, stderr=subprocess.STDOUT, text=True)
+        lines = r.stdout.splitlines()
+        classes = [l.strip()[len("violation class "):].split(": ")[0] for l in lines if l.startswith("violation class")]
+        res[pr] = {"exit": r.returncode, "violation_lines": sum(1 for l in lines if l.startswith("VIOLATION ")),
+                   "known_finding_lines": sum(1 for l in lines if l.startswith("KNOWN-FINDING")), "classes": classes[:8]}
+    sh("git -C %s checkout -- ." % wt)
+    if props:
+        return {"expect": "no alarm", "checks": res, "wall_s": round(time.time() - t)}
+    return dict(res[prop], property=prop, wall_s=round(time.time() - t))
+
+
+def main(argv):
+    jobs = 2
+    if argv[:1] == ["--jobs"]:
+        jobs, argv = int(argv[1]), argv[2:]
+    ids = argv
+    wts = ["%s.%d" % (WT, k) for k in range(jobs)]
+    for wt in wts:
+        sh("git -C /repo worktree remove --force %s" % wt)
+        r = sh("git -C /repo worktree add --detach %s HEAD" % wt)
+        if r.returncode:
+            print(r.stdout); return 2
     scratch = tempfile.mkdtemp(prefix="phq-matrix.", dir="/var/tmp")
-    env = dict(os.environ, VERIF_REPO=WT, VERIF_EVIDENCE_DIR=os.path.join(scratch, "ev"), VERIF_REPLAY_DIR=os.path.join(scratch, "rp"))
     out = {}
     mpath = os.path.join(VERIF, "seeded", "MATRIX.json")
     if os.path.exists(mpath) and ids:
         out = json.load(open(mpath))
     names = ids or sorted(d for d in os.listdir(os.path.join(VERIF, "seeded")) if os.path.isdir(os.path.join(VERIF, "seeded", d)))
-    names = ["(unchanged tree)/C19", "(unchanged tree)/C20"] + names if not ids else names
-    for name in names:
-        props = None
-        if name.startswith("(unchanged"):
-            prop, patch = name.split("/")[1], None
-        else:
-            meta = json.load(open(os.path.join(VERIF, "seeded", name, "meta.json")))
-            prop, patch = meta["property"], os.path.join(VERIF, "seeded", name, "patch.diff")
-            if not prop.startswith("C"):
-                props = ["C19", "C20"]      # benign changes: both checks must stay quiet
-        sh("git -C %s checkout -- ." % WT)
-        if patch:
-            a = sh("git -C %s apply %s" % (WT, patch))
-            if a.returncode:
-                out[name] = {"error": "patch does not apply: " + a.stdout[-300:]}
-                continue
-        t = time.time()
-        res = {}
-        for pr in (props or [prop]):
-            r = subprocess.run([os.path.join(VERIF, "check"), pr, "--tier", "quick"], cwd=VERIF, env=env, stdout=subprocess.PIPE, stderr=subprocess.STDOUT, text=True)
-            lines = r.stdout.splitlines()
-            classes = [l.strip()[len("violation class "):].split(": ")[0] for l in lines if l.startswith("violation class")]
-            res[pr] = {"exit": r.returncode, "violation_lines": sum(1 for l in lines if l.startswith("VIOLATION ")),
-                       "known_finding_lines": sum(1 for l in lines if l.startswith("KNOWN-FINDING")), "classes": classes[:8]}
-        if props:
-            out[name] = {"expect": "no alarm", "checks": res, "wall_s": round(time.time() - t)}
-        else:
-            out[name] = dict(res[prop], property=prop, wall_s=round(time.time() - t))
-        print(name, out[name], flush=True)
-        json.dump(out, open(mpath, "w"), indent=1, sort_keys=True)
-    sh("git -C %s checkout -- ." % WT)
-    sh("git -C /repo worktree remove --force %s" % WT)
+    lock = threading.Lock()
+
+    def record(name, res):
+        with lock:
+            out[name] = res
+            print(name, res, flush=True)
+            json.dump(out, open(mpath, "w"), indent=1, sort_keys=True)
+    if not ids:
+        for name in ("(unchanged tree)/C19", "(unchanged tree)/C20"):
+            record(name, run_entry(name, wts[0], os.path.join(scratch, "s0")))
+    queue = list(names)
+
+    def worker(k):
+        while True:
+            with lock:
+                if not queue:
+                    return
+                name = queue.pop(0)
+            record(name, run_entry(name, wts[k], os.path.join(scratch, "s%d" % k)))
+    threads = [threading.Thread(target=worker, args=(k,)) for k in range(jobs)]
+    for t in threads:
+        t.start()
+    for t in threads:
+        t.join()
+    for wt in wts:
+        sh("git -C /repo worktree remove --force %s" % wt)
     shutil.rmtree(scratch, ignore_errors=True)
     return 0
 
